@@ -77,9 +77,13 @@ PROP_FUNCS = {
 
 
 def _is_logger_call(node):
+    # `_LOGGER.debug(...)` and the per-request adapters `with lc.LogContext(...) as log: log.debug(...)`
     return (isinstance(node, ast.Expr) and isinstance(node.value, ast.Call)
             and isinstance(node.value.func, ast.Attribute) and isinstance(node.value.func.value, ast.Name)
-            and node.value.func.value.id == '_LOGGER')
+            and (node.value.func.value.id == '_LOGGER'
+                 or (node.value.func.attr in ('debug', 'info', 'warning', 'error', 'exception', 'critical')
+                     and node.value.args and isinstance(node.value.args[0], ast.Constant)
+                     and isinstance(node.value.args[0].value, str))))      # the adapter's name is alpha-renamed
 
 
 def _u(node):
